@@ -180,8 +180,15 @@ def make_fn(params, first, is_async, body, ann=None, name="fn"):
     return fn
 
 
+FILLERS = [7, "s", None, 2.5]
+
+
 def make_body(rec, plan, materialise):
-    """Instrumented body.  rec: {"calls": [...], "first": [...]}"""
+    """Instrumented body.  rec: {"calls": [...], "first": [...]}
+
+    Container outputs: ``plan["len"]`` elements with the frame at position
+    ``plan["pos"]`` (tuple / list), resp. the frame under ``plan["key"]``
+    before or after the other entry (dict)."""
     def body(argd, first):
         rec["calls"].append({k: desc(v) for k, v in argd.items()})
         rec["first"].append(first)
@@ -193,20 +200,54 @@ def make_body(rec, plan, materialise):
         frame = argd["df"] if plan["source"] == "input" else materialise("out")
         if shape == "bare":
             return frame
-        if shape == "tuple":
-            return (7, frame)
-        if shape == "list":
-            return [frame, 7]
+        if shape in ("tuple", "list"):
+            n = plan.get("len", 2)
+            pos = plan.get("pos", 1 if shape == "tuple" else 0)
+            items = [FILLERS[i % len(FILLERS)] for i in range(n)]
+            items[pos] = frame
+            return tuple(items) if shape == "tuple" else items
         if shape == "dict":
-            return {"k": frame, "j": 7}
+            key = plan.get("key", "k")
+            if plan.get("pos", 0) == 0:
+                return {key: frame, "j": 7}
+            return {"j": 7, key: frame}
         if shape == "tuple2":
             return (frame, materialise("out2"))
         raise AssertionError(shape)
     return body
 
 
-OUT_GETTERS = {"bare": [None], "tuple": [1], "list": [0], "dict": ["k"],
-               "tuple2": [0, 1]}
+DICT_KEYS = ["k", "k", "", "a b", "0"]     # "" is a falsy-but-set getter
+
+
+def gen_out_layout(rng, shape):
+    """Where the designated object sits in a container output."""
+    if shape in ("tuple", "list"):
+        n = rng.choice([1, 2, 2, 2, 3, 3, 4])
+        return {"len": n, "pos": rng.randrange(n)}
+    if shape == "dict":
+        return {"len": 2, "pos": rng.choice([0, 1]), "key": rng.choice(DICT_KEYS)}
+    if shape == "tuple2":
+        return {"len": 2, "pos": 0}
+    return {}
+
+
+def out_getters(plan, negative=()):
+    """The obj_getter(s) designating the frame(s) of the body's output.
+    ``negative[j]``: write the j-th integer getter as the equivalent negative
+    index (``out[-1]`` is the last element, as everywhere in Python)."""
+    shape = plan["shape"]
+    if shape == "bare":
+        return [None]
+    if shape == "dict":
+        return [plan.get("key", "k")]
+    if shape == "tuple2":
+        base, n = [0, 1], 2
+    else:
+        n = plan.get("len", 2)
+        base = [plan.get("pos", 1 if shape == "tuple" else 0)]
+    neg = list(negative) + [False] * len(base)
+    return [g - n if neg[j] else g for j, g in enumerate(base)]
 
 
 # ------------------------------------------------------------- call shapes
@@ -330,7 +371,8 @@ def reference(fn_plain, first_obj, args, kwargs, in_specs, options, out_specs,
             if getter is None:
                 res = parsed
             elif isinstance(res, tuple):
-                res = tuple(parsed if i == getter else x
+                at = getter % len(res)       # out[-1] is the last element
+                res = tuple(parsed if i == at else x
                             for i, x in enumerate(res))
             else:
                 res[getter] = parsed
@@ -464,11 +506,20 @@ def corrupt_rows(rng, spec, table, rows):
     return True
 
 
-def gen_table_for(rng, spec, options, validity):
-    """validity: 'valid' | 'invalid' | 'invalid-outside-subsample' | 'coercible'"""
-    sp = copy.deepcopy(spec)
-    n = rng.choice([3, 4, 5, 6])
-    table = G.gen_table(rng, sp, nrows=n)
+def gen_table_for(rng, spec, options, validity, nrows=None, relaxed=None):
+    """validity: 'valid' | 'invalid' | 'invalid-outside-subsample' | 'coercible'
+    ``relaxed``: the spec object to generate from (the generator relaxes it in
+    place where it cannot be satisfied) instead of a private copy"""
+    sp = copy.deepcopy(spec) if relaxed is None else relaxed
+    n = nrows or rng.choice([3, 4, 5, 6])
+    try:
+        table = G.gen_table(rng, sp, nrows=n)
+    except AttributeError:
+        # gen.spec's best-effort conformance to a frame-level dtype applies
+        # the column's checks to values of that dtype (str checks on bools):
+        # generate for the columns alone
+        sp = dict(copy.deepcopy(spec), dtype=None, checks=None)
+        table = G.gen_table(rng, sp, nrows=n)
     note = validity
     if sp.get("c17_omit") and len(table["columns"]) > 1 and rng.random() < 0.7:
         # the column add_missing_columns has to supply from its default
@@ -567,3 +618,329 @@ def gen_model_prog(rng, backend):
         cls["config"]["options"].pop("unique", None)
         cls["config"]["options"].pop("drop_invalid_rows", None)
     return {"backend": backend, "classes": [cls]}
+
+
+# ------------------------------------------- schemas that differ only a little
+# check_types does not re-validate a pandas frame whose ``.pandera`` accessor
+# holds *the same exact schema* as the annotation.  "Almost the same" is the
+# class in which that shortcut can go wrong: a frame validated earlier (by
+# Model.validate, by another decorated function, by the input check of this
+# very function) against a model that declares the same fields but other
+# frame-level rules (Config.strict / ordered / unique / coerce /
+# add_missing_columns / unique_column_names, a dataframe check, a registered
+# check in Config), other field rules (nullable / unique / a check) or only
+# another name / title / description / metadata.
+SIBLING_DELTAS = ["strict", "strict", "ordered", "unique", "df_check",
+                  "df_check", "extras", "extras", "coerce",
+                  "add_missing_columns", "unique_column_names", "meta",
+                  "field", "field"]
+
+
+def _config(cls):
+    if not cls["config"]:
+        cls["config"] = {"style": "plain", "options": {}, "extras": {}}
+    return cls["config"]
+
+
+def gen_sibling_prog(rng, prog):
+    """-> (prog of a model with the same fields as ``prog``'s but 1-2 other
+    rules, the kinds of difference applied)."""
+    sib = copy.deepcopy(prog)
+    cls = sib["classes"][0]
+    flat = P16.resolve(prog, 0)
+    plain = [c for c in flat["columns"] if not c["regex"]]
+    kinds = []
+    want, tries = rng.choice([1, 1, 2]), 0
+    while len(kinds) < want and tries < 8:
+        tries += 1
+        kind = rng.choice(SIBLING_DELTAS)
+        if kind in kinds:
+            continue
+        cfg = _config(cls)
+        o = cfg["options"]
+        if kind == "strict":
+            cur = o.get("strict", False)
+            o["strict"] = rng.choice([v for v in (False, True, True, "filter")
+                                      if v != cur])
+        elif kind in ("ordered", "coerce", "add_missing_columns",
+                      "unique_column_names"):
+            o[kind] = not o.get(kind, False)
+        elif kind == "unique":
+            names = [c["name"] for c in plain if isinstance(c["name"], str)]
+            if o.get("unique"):
+                o.pop("unique")
+            elif names:
+                o["unique"] = rng.sample(names, min(len(names), rng.choice([1, 2])))
+            else:
+                continue
+        elif kind == "df_check":
+            if cls["df_checks"] and rng.random() < 0.5:
+                cls["df_checks"].pop(rng.randrange(len(cls["df_checks"])))
+            else:
+                taken = {d["method"] for d in cls["df_checks"]}
+                m = [x for x in ("dfc_sibling", "dfc_sibling2") if x not in taken][0]
+                cls["df_checks"].append(P16.gen_dfcheckdef(rng, m, plain))
+        elif kind == "extras":
+            ex = cfg["extras"]
+            if ex and rng.random() < 0.4:
+                ex.pop(rng.choice(sorted(ex)))
+            else:
+                name = rng.choice(P16.EXTRA_CHECKS)
+                mx = rng.choice([m for m in (1, 2, 3, 4, 5)
+                                 if (ex.get(name) or {}).get("mx") != m])
+                ex[name] = {"form": rng.choice(["scalar", "dict", "tuple"]),
+                            "mx": mx}
+        elif kind == "meta":
+            what = rng.choice(["name", "title", "description", "metadata"])
+            o[what] = {"name": "sibling schema", "title": "Sibling title",
+                       "description": "Sibling description",
+                       "metadata": {"owner": "sibling"}}[what]
+            if what == "name" and rng.random() < 0.5:
+                o.pop("name")
+                cls["name"] = cls["name"] + "Sibling"   # the class name is the default
+        elif kind == "field":
+            cands = [f for f in cls["fields"] if f["has_field"] or f["ann"]]
+            if not cands:
+                continue
+            f = rng.choice(cands)
+            if not f["has_field"]:
+                _give_field(f)
+            what = rng.choice(["nullable", "unique", "check", "check"])
+            if what == "check":
+                if f["checks"] and rng.random() < 0.5:
+                    f["checks"].pop(rng.randrange(len(f["checks"])))
+                else:
+                    fs = G.gen_field(rng, "x", dtype=f["dtype"], p_checks=1.0,
+                                     max_checks=1,
+                                     neutral=prog["backend"] == "polars")
+                    new = P16._dedupe_checks(f["checks"] + fs["checks"])
+                    try:
+                        ok = G.satisfying({"dtype": f["dtype"], "checks": [
+                            dict(k, ignore_na=True) for k in new]})
+                    except TypeError:
+                        ok = []
+                    if new == f["checks"] or len(ok) < 2:
+                        continue
+                    f["checks"] = new
+            else:
+                f[what] = not f[what]
+        kinds.append(kind)
+    if not kinds:
+        _config(cls)["options"]["title"] = "Sibling title"
+        kinds.append("meta")
+    return sib, kinds
+
+
+def _give_field(f):
+    """a bare annotation becomes ``= pa.Field(...)`` (all options at their
+    defaults so far, see c16_gen._make_bare)"""
+    f["has_field"] = True
+
+
+def _limits(flat):
+    """(max rows, max columns) the frame-level checks of a model allow"""
+    rows = cols = None
+    for d in flat["df_checks"]:
+        if d["pred"] == "nrows_le5":
+            rows = min(rows or 99, 5)
+        elif d["pred"] == "ncols_le4":
+            cols = min(cols or 99, 4)
+    for name, v in flat["extras"].items():
+        if name == "pvm_nrows_le":
+            rows = min(rows or 99, v["mx"])
+        else:
+            cols = min(cols or 99, v["mx"])
+    return rows, cols
+
+
+def _both(flat_a, flat_c):
+    """Table-generator spec of 'what both models accept' (best effort)."""
+    spec = P16.gen_spec_of(flat_a)
+    oa, oc = flat_a["options"], flat_c["options"]
+    spec["strict"] = bool(oa.get("strict")) or bool(oc.get("strict"))
+    spec["ordered"] = bool(oa.get("ordered") or oc.get("ordered"))
+    spec["unique"] = sorted(set(oa.get("unique") or []) |
+                            set(oc.get("unique") or [])) or None
+    by_c = {repr(c["name"]): c for c in flat_c["columns"]}
+    small = [d["col"] for f in (flat_a, flat_c) for d in f["df_checks"]
+             if d["pred"] == "col_small"]
+    for col in spec["columns"]:
+        cc = by_c.get(repr(col["name"]))
+        if cc is not None:
+            have = [(k["kind"], repr(k["args"])) for k in col["checks"]]
+            col["checks"] += [
+                {"kind": k["kind"], "args": k["args"], "ignore_na": cc["ignore_na"]}
+                for k in cc["checks"] if (k["kind"], repr(k["args"])) not in have]
+            col["nullable"] = col["nullable"] and cc["nullable"]
+            col["unique"] = col["unique"] or cc["unique"]
+        if col["name"] in small and col["dtype"] in ("int64", "float64"):
+            col["checks"].append({"kind": "lt", "args": {"max_value": 5},
+                                  "ignore_na": True})
+        try:
+            if not G.satisfying(col):
+                col["checks"] = [k for k in col["checks"]
+                                 if k["kind"] != "lt" or k["args"] != {"max_value": 5}]
+        except TypeError:
+            pass
+    return spec
+
+
+def extra_rules(flat_a, flat_c):
+    """Rules model A has on top of model C (what sibling_table can move a
+    frame against)."""
+    oa, oc = flat_a["options"], flat_c["options"]
+    rows_a, cols_a = _limits(flat_a)
+    rows_c, cols_c = _limits(flat_c)
+    out = []
+    if oa.get("strict", False) is not False and not oc.get("strict"):
+        out.append("strict")
+    for k in ("ordered", "unique", "unique_column_names"):
+        if oa.get(k) and not oc.get(k):
+            out.append(k)
+    if rows_a and rows_a < (rows_c or 99) and rows_a < 7:
+        out.append("rows")
+    if cols_a and cols_a < (cols_c or 99) and not oa.get("strict") \
+            and not oc.get("strict"):
+        out.append("columns")
+    small_c = [d["col"] for d in flat_c["df_checks"] if d["pred"] == "col_small"]
+    if any(d["pred"] == "col_small" and d["col"] not in small_c
+           for d in flat_a["df_checks"]):
+        out.append("col_small")
+    by_c = {repr(c["name"]): c for c in flat_c["columns"]}
+    for ca in flat_a["columns"]:
+        cc = by_c.get(repr(ca["name"]))
+        if cc and ((ca["unique"] and not cc["unique"])
+                   or (cc["nullable"] and not ca["nullable"])
+                   or [k for k in ca["checks"] if k not in cc["checks"]]):
+            out.append("field")
+    return out
+
+
+def orient(rng, prog, sib):
+    """-> (annotation's model, carried model, swapped?): mostly the way round
+    in which the annotation has a rule the carried model lacks"""
+    fp, fs = P16.resolve(prog, 0), P16.resolve(sib, 0)
+    a_orig, a_sib = extra_rules(fp, fs), extra_rules(fs, fp)
+    swapped = rng.random() < 0.5
+    if bool(a_orig) != bool(a_sib) and rng.random() < 0.8:
+        swapped = bool(a_sib)
+    return (sib, prog, True) if swapped else (prog, sib, False)
+
+
+def sibling_table(rng, flat_a, flat_c, spec_a, options):
+    """A table for a frame that is validated against the *carried* model C
+    first and then passed where the annotation says A: generated to be valid
+    for both, then (mostly) moved against a rule that A has and C lacks - so
+    that C accepts it and A does not, or A parses it and C does not.
+    -> (table, [what was done])"""
+    oa, oc = flat_a["options"], flat_c["options"]
+    rows_a, cols_a = _limits(flat_a)
+    rows_c, cols_c = _limits(flat_c)
+    keep_valid = rng.random() < 0.25
+    nrows = None
+    max_rows = min(rows_a or 99, rows_c or 99)
+    if rows_a and not keep_valid and rows_a < (rows_c or 99) and rows_a < 7:
+        nrows = rows_a + 1                   # one more than A allows
+    elif max_rows < 6:
+        nrows = rng.randint(1, max_rows)
+    spec = _both(flat_a, flat_c)
+    if cols_a or cols_c:
+        spec["strict"] = True                # no undeclared column by chance
+    want = "coercible" if parses(spec_a) and rng.random() < 0.3 else "valid"
+    for _ in range(3):
+        sp = copy.deepcopy(spec)
+        table, _note = gen_table_for(rng, sp, options, want, nrows=nrows,
+                                     relaxed=sp)
+        if sp.get("unique") == spec.get("unique"):
+            break                            # jointly unique as asked for
+    cols = table["columns"]
+    n = len(cols[0]["values"]) if cols else 0
+    if keep_valid:
+        return table, ["valid-for-both-models"]
+    out = []
+    if nrows and rows_a and nrows > rows_a:
+        out.append("more-rows-than-a-frame-check-of-the-annotation-allows")
+
+    def extra(k):
+        name = "extra%d" % k
+        if not any(c["name"] == name for c in cols):
+            cols.insert(rng.randint(0, len(cols)),
+                        {"name": name, "phys": "float64", "values": [0.5] * n})
+    if cols_a and cols_a < (cols_c or 99) and not oa.get("strict") \
+            and not oc.get("strict") and len(cols) <= cols_a:
+        k = 0
+        while len(cols) <= cols_a:
+            extra(k)
+            k += 1
+        out.append("more-columns-than-a-frame-check-of-the-annotation-allows")
+    if oa.get("strict", False) is not False and not oc.get("strict") \
+            and len(cols) < (cols_c or 99):
+        extra(9)
+        out.append("undeclared-column:strict=%r" % (oa["strict"],))
+    if oa.get("ordered") and not oc.get("ordered") and len(cols) >= 2 \
+            and len({c["name"] for c in cols}) == len(cols):
+        cols.append(cols.pop(0))
+        out.append("columns-out-of-order")
+    if oa.get("unique") and oa.get("unique") != oc.get("unique") \
+            and not oc.get("unique") and n >= 2 \
+            and not any(c["unique"] for c in flat_a["columns"] + flat_c["columns"]):
+        i, j = rng.sample(range(n), 2)
+        for c in cols:
+            c["values"][j] = c["values"][i]
+        out.append("duplicate-row")
+    if oa.get("unique_column_names") and not oc.get("unique_column_names") \
+            and cols and not oc.get("strict") and len(cols) < (cols_c or 99):
+        i = rng.randrange(len(cols))
+        cols.insert(i + 1, copy.deepcopy(cols[i]))
+        out.append("duplicate-column-label")
+    for d in flat_a["df_checks"]:
+        if d["pred"] != "col_small" or any(
+                x["pred"] == "col_small" and x["col"] == d["col"]
+                for x in flat_c["df_checks"]):
+            continue
+        for c in cols:
+            if c["name"] == d["col"] and c["values"] and \
+                    c["phys"] in ("int64", "float64"):
+                fs = [x for x in spec["columns"] if x["name"] == c["name"]]
+                fs = dict(fs[0], checks=[k for k in fs[0]["checks"]
+                                         if k["args"] != {"max_value": 5}])
+                try:
+                    big = [x for x in G.satisfying(fs) if x is not None and x >= 5]
+                except TypeError:
+                    big = []
+                if big:
+                    c["values"][rng.randrange(n)] = rng.choice(big)
+                    out.append("value-against-a-frame-check-of-the-annotation")
+    # field rules A has and C lacks
+    by_c = {repr(c["name"]): c for c in flat_c["columns"]}
+    for ca in flat_a["columns"]:
+        cc = by_c.get(repr(ca["name"]))
+        tcols = [c for c in cols if c["name"] == ca["name"]]
+        if cc is None or not tcols or n == 0:
+            continue
+        c = tcols[0]
+        if ca["unique"] and not cc["unique"] and n >= 2:
+            c["values"][1] = c["values"][0]
+            out.append("field:duplicate-value")
+        if not ca["nullable"] and cc["nullable"] and c["phys"] in (
+                "float64", "object", "datetime") and \
+                not (ca["unique"] or cc["unique"]):
+            c["values"][rng.randrange(n)] = None
+            out.append("field:null")
+        if [k for k in ca["checks"] if k not in cc["checks"]] \
+                and c["phys"] == G.PHYS_OF[ca["dtype"]]:
+            fs_a = {"dtype": ca["dtype"], "checks": [
+                {"kind": k["kind"], "args": k["args"], "ignore_na": True}
+                for k in ca["checks"]]}
+            fs_c = dict(fs_a, checks=[
+                {"kind": k["kind"], "args": k["args"], "ignore_na": True}
+                for k in cc["checks"]])
+            try:
+                ok_c = G.satisfying(fs_c)
+                vals = [x for x in G.violating(fs_a) if x in ok_c]
+            except TypeError:
+                vals = []
+            if vals and not (ca["unique"] or cc["unique"]):
+                c["values"][rng.randrange(n)] = rng.choice(vals)
+                out.append("field:value-against-a-check")
+    return table, out or ["no-rule-of-the-annotation-to-move-against"]
